@@ -3,7 +3,7 @@ CONSTANTS
   MaxArr = 9
   MaxCap = 3
   Full = TRUE
-  Directed = FALSE
+  Directed = TRUE
   Quiet = FALSE
 INIT Init
 NEXT Next
